@@ -108,6 +108,33 @@ func c18Statement(r *core.Rand, g *gen.StmtGen) (string, string) {
 		big := pick(r, []string{"9223372036854775807", "9223372036854775806", "4611686018427387904", "2147483648"})
 		tail := pick(r, []string{"LIMIT " + big + " OFFSET 1", "LIMIT " + big + " OFFSET " + big, "OFFSET " + big + " LIMIT 1", "LIMIT " + big, "OFFSET " + big, "LIMIT 2 OFFSET " + big, "OFFSET 2 LIMIT " + big})
 		return fmt.Sprintf(pick(r, []string{"SELECT * FROM %s %s", "SELECT * FROM %s ORDER BY i %s", "SELECT count(*) FROM %s %s", "SELECT i, count(*) FROM %s GROUP BY i %s"}), t, tail), "limit_offset_extremes"
+	case 21, 22:
+		// select lists about as long as the table is wide, or longer (the same
+		// column several times), with aggregates in the last places, grouped
+		// by few columns so that groups have several rows
+		n := r.Range(4, 11)
+		gcols := []string{pick(r, []string{"i", "f", "s"})}
+		if c2 := pick(r, []string{"i", "f", "s", "b"}); r.Bool() && c2 != gcols[0] {
+			gcols = append(gcols, c2)
+		}
+		// (a column may stand in the list once: a second mention makes the
+		// grouping ambiguous for the parser; literals and comparisons fill up)
+		items := append([]string{}, gcols...)
+		for len(items) < n {
+			items = append(items, pick(r, []string{"1", "2", "'x'", "true", "i = 1", "s = 'a'", "i < b", "f = true"}))
+		}
+		for k := len(items) - 1; k > 0; k-- {
+			j := r.Intn(k + 1)
+			items[k], items[j] = items[j], items[k]
+		}
+		for k := r.Range(1, 2); k > 0; k-- {
+			items = append(items, pick(r, []string{"count(*)", "avg(i)", "count(n)", "avg(b)", "count(s)"}))
+		}
+		if r.Chance(1, 4) {
+			k := r.Intn(len(items))
+			items[0], items[k] = items[k], items[0]
+		}
+		return fmt.Sprintf("SELECT %s FROM %s GROUP BY %s", strings.Join(items, ", "), pick(r, []string{"t1", "t2", "e", "t1 x JOIN t2 y ON x.i = y.i"}), strings.Join(gcols, ", ")), "long_select_list"
 	case 0:
 		return fmt.Sprintf("SELECT %s(%s) FROM %s", pick(r, []string{"avg", "count"}), col(), t), "aggregate"
 	case 1:
